@@ -125,6 +125,10 @@ pub fn op_probe(req: &J) -> J {
     Ok(me) => me,
     Err(e) => return json!({"build_err": e.to_string(), "invocables": names}),
   };
+  if req.get("build_only").and_then(|x| x.as_bool()).unwrap_or(false) {
+    // only the model is loaded and its evaluator built: nothing is invoked
+    return json!({"built": true, "invocables": names, "results": []});
+  }
   let mut inputs = vec![FeelContext::default()];
   if let Some(J::Array(a)) = req.get("inputs") {
     for i in a {
@@ -239,12 +243,11 @@ pub fn op_dtable(req: &J) -> J {
 
 /// Concurrent evaluation on one shared evaluator, following a generated plan.
 /// {"handle":h, "calls":[[name, ctx]...], "threads":[[ [call, yields, spins]... ]...], "barrier":bool, "skew":[spins per thread], "watchdog_ms":n}
+/// With "xml": text and "rounds": n instead of a handle: n rounds, each on a FRESH evaluator built from the text ("cold" implied: the
+/// sequential pass is made after the threads), so that whatever an evaluator initialises lazily at its first use is initialised under
+/// contention n times. The answer is that of the first round in which a concurrent value differs from the sequential one (or that
+/// hangs / panics), else that of the last round; "rounds_done" says how many were run.
 pub fn op_threads(state: &mut State, req: &J) -> J {
-  let h = req.get("handle").and_then(|h| h.as_u64()).unwrap_or(u64::MAX);
-  let me = match state.models.get(&h) {
-    Some((me, _)) => Arc::clone(me),
-    None => return json!({"error": "no such handle"}),
-  };
   let empty = vec![];
   let mut calls: Vec<(String, FeelContext)> = vec![];
   for c in req.get("calls").and_then(|x| x.as_array()).unwrap_or(&empty) {
@@ -255,9 +258,56 @@ pub fn op_threads(state: &mut State, req: &J) -> J {
     }
   }
   let calls = Arc::new(calls);
+  if let Some(xml) = req.get("xml").and_then(|x| x.as_str()) {
+    let rounds = req.get("rounds").and_then(|x| x.as_u64()).unwrap_or(1).max(1);
+    let defs = match dmntk_model::parse(xml) {
+      Ok(d) => d,
+      Err(e) => return json!({"error": format!("parse: {}", e)}),
+    };
+    let mut last = J::Null;
+    for round in 0..rounds {
+      let me = match ModelEvaluator::new(&defs) {
+        Ok(me) => me,
+        Err(e) => return json!({"error": format!("build: {}", e)}),
+      };
+      let mut r = threads_round(me, Arc::clone(&calls), req, true);
+      let differs = r.get("hang").is_some()
+        || match (r.get("sequential").and_then(|x| x.as_array()), r.get("concurrent").and_then(|x| x.as_array())) {
+          (Some(seq), Some(conc)) => {
+            let plans = req.get("threads").and_then(|x| x.as_array()).unwrap_or(&empty);
+            conc.iter().enumerate().any(|(ti, vals)| match vals.as_array() {
+              None => true,
+              Some(vals) => vals.iter().enumerate().any(|(si, v)| {
+                let call = plans.get(ti).and_then(|p| p.get(si)).and_then(|s| s.get(0)).and_then(|x| x.as_u64()).unwrap_or(0) as usize;
+                seq.get(call).map(|w| w != v).unwrap_or(true)
+              }),
+            })
+          }
+          _ => true,
+        };
+      if let Some(o) = r.as_object_mut() {
+        o.insert("rounds_done".to_string(), json!(round + 1));
+      }
+      last = r;
+      if differs {
+        break;
+      }
+    }
+    return last;
+  }
+  let h = req.get("handle").and_then(|h| h.as_u64()).unwrap_or(u64::MAX);
+  let me = match state.models.get(&h) {
+    Some((me, _)) => Arc::clone(me),
+    None => return json!({"error": "no such handle"}),
+  };
+  let cold = req.get("cold").and_then(|b| b.as_bool()).unwrap_or(false);
+  threads_round(me, calls, req, cold)
+}
+
+fn threads_round(me: Arc<ModelEvaluator>, calls: Arc<Vec<(String, FeelContext)>>, req: &J, cold: bool) -> J {
+  let empty = vec![];
   // sequential reference pass by the SUT itself (the oracle compares, not the driver); with "cold": true it is made AFTER the
   // concurrent run, so that in a fresh process the first use of every lazily initialised global happens under contention
-  let cold = req.get("cold").and_then(|b| b.as_bool()).unwrap_or(false);
   let sequential: Vec<J> = if cold { vec![] } else { calls.iter().map(|(n, c)| vj(&me.evaluate_invocable(n, c))).collect() };
   let mut plans: Vec<Vec<(usize, u64, u64)>> = vec![];
   for t in req.get("threads").and_then(|x| x.as_array()).unwrap_or(&empty) {
@@ -280,17 +330,26 @@ pub fn op_threads(state: &mut State, req: &J) -> J {
   let watchdog = Duration::from_millis(req.get("watchdog_ms").and_then(|x| x.as_u64()).unwrap_or(60000));
   let n = plans.len();
   let barrier = Arc::new(Barrier::new(n.max(1)));
+  // after the blocking barrier (threads are woken one after the other) a spinning one: all threads leave it within nanoseconds
+  let arrived = Arc::new(std::sync::atomic::AtomicUsize::new(0));
   let (tx, rx) = mpsc::channel::<(usize, Result<Vec<String>, String>)>();
   for (ti, plan) in plans.into_iter().enumerate() {
     let me = Arc::clone(&me);
     let calls = Arc::clone(&calls);
     let barrier = Arc::clone(&barrier);
+    let arrived = Arc::clone(&arrived);
     let tx = tx.clone();
     let sk = skew.get(ti).copied().unwrap_or(0);
     let _ = std::thread::Builder::new().stack_size(8 * 1024 * 1024).spawn(move || {
       let r = std::panic::catch_unwind(std::panic::AssertUnwindSafe(|| {
         if use_barrier {
           barrier.wait();
+          arrived.fetch_add(1, std::sync::atomic::Ordering::SeqCst);
+          let mut spins = 0u64;
+          while arrived.load(std::sync::atomic::Ordering::SeqCst) < n && spins < 50_000_000 {
+            std::hint::spin_loop();
+            spins += 1;
+          }
         }
         let mut acc = 0u64;
         for i in 0..sk {
